@@ -115,6 +115,17 @@ class Interp:
 
     index_samplers = None
 
+    def grid_symbol(self, k, length):
+        """index symbol of axis position k of a grid of the given length (shared by grids of equal length)"""
+        if not hasattr(self, "_grid_syms"):
+            self._grid_syms = []
+        for kk, lt, s_ in self._grid_syms:
+            if kk == k and (lt == length or tm.equivalent(lt, length, n=8, samplers=self.index_samplers, seed_tag="grid")):
+                return s_
+        s_ = sym(f"g{k}_{len(self._grid_syms)}")
+        self._grid_syms.append((k, length, s_))
+        return s_
+
     def closure_for(self, qual):
         """free variables of a nested function analysed on its own: the parameters of the enclosing functions, as
         their literal defaults where they have one, else as symbols; nested sibling functions as functions"""
@@ -257,6 +268,7 @@ class Interp:
             return Flow.NORMAL
         if isinstance(st, ast.AugAssign):
             cur = self.eval(_load(st.target), fr)
+            self.record("inplace", type(st.op).__name__, [cur], {}, st, {"fresh": getattr(cur, "fresh", None)})
             v = self.binop(st.op, cur, self.eval(st.value, fr), st)
             self.assign(st.target, v, fr, st, aug=True)
             return Flow.NORMAL
@@ -314,7 +326,7 @@ class Interp:
         except NotConst:
             pass
         if isinstance(av, Seq):
-            return len(av.items) > 0
+            return True if av.kind == "match" else len(av.items) > 0
         if isinstance(av, (Obj, Func, ClassRef, Ref, Frame)):
             if isinstance(av, Frame):
                 return None
